@@ -7,6 +7,8 @@ import (
 	"io"
 	"net/http"
 	"strings"
+	"sync"
+	"time"
 
 	tpl "code.gopub.tech/tpl"
 	"code.gopub.tech/tpl/html"
@@ -214,4 +216,196 @@ func reloadHistory(idx int) (hot, first bool, ops string, ok bool) {
 		idx -= c
 	}
 	return false, false, "", false
+}
+
+// ---- reloadconc: deterministic schedules of concurrent Reloads and requests (Sys/ReloadConc.v) ----
+// A Reload is split at the only place the library lets a caller hold it: inside the builder.  First occurrence of a
+// Reload thread in the schedule: its goroutine is started and runs until it is inside the builder; second occurrence:
+// the builder returns and the Reload runs to completion.  A request's occurrence runs the whole request.
+
+type concKey struct{}
+
+func runReloadConc(first bool, threads string, sched []int) (line string, c18 string) {
+	defer func() {
+		if x := recover(); x != nil {
+			line, c18 = fmt.Sprintf("PANIC %v", x), fmt.Sprintf("PANIC %v", x)
+		}
+	}()
+	n := len(threads)
+	var mu sync.Mutex
+	calls := 0
+	ver := make([]int, n)
+	entered := make([]chan struct{}, n)
+	release := make([]chan struct{}, n)
+	done := make([]chan error, n)
+	for i := range entered {
+		entered[i], release[i], done[i] = make(chan struct{}, 1), make(chan struct{}), make(chan error, 1)
+	}
+	stray := ""
+	builder := func(ctx context.Context) (types.TemplateManager, error) {
+		mu.Lock()
+		calls++
+		c := calls
+		mu.Unlock()
+		id, has := ctx.Value(concKey{}).(int)
+		ok := first
+		if has {
+			if threads[id] != '+' && threads[id] != '-' {
+				mu.Lock()
+				stray = "the builder was called by a request without hot reload"
+				mu.Unlock()
+			} else {
+				mu.Lock()
+				ver[id] = c
+				mu.Unlock()
+				entered[id] <- struct{}{}
+				<-release[id]
+				ok = threads[id] == '+'
+			}
+		}
+		if ok {
+			if c%2 == 0 {
+				return &fakeMgrPtr{c}, nil
+			}
+			return fakeMgr{c}, nil
+		}
+		return fakeMgr{-c}, errBuild
+	}
+	r, err := tpl.NewHTMLRender(builder)
+	cur := 0 // reference: the set in service
+	if err == nil {
+		cur = 1
+	}
+	request := func(ctx context.Context, o byte) string {
+		name := "t"
+		if o == 'M' {
+			name = "missing"
+		}
+		var e error
+		out := ""
+		if o == 'G' {
+			var t types.Template
+			t, e = r.GetTemplate(ctx, name)
+			if e == nil {
+				var sb strings.Builder
+				e = t.Execute(&sb, nil)
+				out = sb.String()
+			}
+		} else {
+			w := &respWriter{h: http.Header{}}
+			e = r.Instance(ctx, name, nil).Render(w)
+			out = w.sb.String()
+		}
+		var nf notFound
+		switch {
+		case e == nil:
+			return "served" + strings.TrimPrefix(out, "v")
+		case errors.As(e, &nf):
+			return fmt.Sprintf("notfound%d", nf.v)
+		case errors.Is(e, errBuild):
+			return "builderr"
+		case errors.Is(e, tpl.ErrNoTemplateSet):
+			return "noset"
+		}
+		return "err:" + e.Error()
+	}
+	want := func(o byte) string {
+		switch {
+		case cur == 0:
+			return "noset"
+		case o == 'M':
+			return fmt.Sprintf("notfound%d", cur)
+		}
+		return fmt.Sprintf("served%d", cur)
+	}
+	ans := make([]string, n)
+	seen := make([]int, n)
+	for i := range ans {
+		ans[i] = "-"
+	}
+	for _, i := range sched {
+		seen[i]++
+		ctx := context.WithValue(context.Background(), concKey{}, i)
+		switch o := threads[i]; {
+		case (o == '+' || o == '-') && seen[i] == 1:
+			go func(i int) { done[i] <- r.Reload(ctx) }(i)
+			select {
+			case <-entered[i]:
+			case <-time.After(5 * time.Second):
+				return "STUCK", fmt.Sprintf("Reload of thread %d did not call the builder", i)
+			}
+		case (o == '+' || o == '-') && seen[i] == 2:
+			close(release[i])
+			var e error
+			select {
+			case e = <-done[i]:
+			case <-time.After(5 * time.Second):
+				return "STUCK", fmt.Sprintf("Reload of thread %d did not return after its build", i)
+			}
+			if e == nil {
+				ans[i] = "rok"
+			} else {
+				ans[i] = "rerr"
+			}
+			if (e == nil) != (o == '+') && c18 == "" {
+				c18 = fmt.Sprintf("Reload of thread %d answered %s", i, ans[i])
+			}
+			if o == '+' {
+				cur = ver[i]
+			}
+		case seen[i] == 1 && o != '+' && o != '-':
+			ans[i] = request(ctx, o)
+			if w := want(o); ans[i] != w && c18 == "" {
+				c18 = fmt.Sprintf("threads %q schedule %v: request of thread %d answered %s, expected %s (set %d was the last one published; builds still running do not count)", threads, sched, i, ans[i], w, cur)
+			}
+		}
+	}
+	probe := request(context.Background(), 'X')
+	if w := want('X'); probe != w && c18 == "" {
+		c18 = fmt.Sprintf("threads %q schedule %v: final request answered %s, expected %s", threads, sched, probe, w)
+	}
+	curS := "none"
+	if strings.HasPrefix(probe, "served") {
+		curS = strings.TrimPrefix(probe, "served")
+	} else if probe != "noset" {
+		curS = probe
+	}
+	// let the Reloads that are still inside the builder finish
+	for i := range threads {
+		if (threads[i] == '+' || threads[i] == '-') && seen[i] == 1 {
+			close(release[i])
+			<-done[i]
+		}
+	}
+	mu.Lock()
+	if stray != "" && c18 == "" {
+		c18 = stray
+	}
+	mu.Unlock()
+	return strings.Join(ans, " ") + " cur=" + curS, c18
+}
+
+func genReloadConc(r *Rng) (first bool, threads string, sched []int) {
+	first = r.Chance(70)
+	n := 1 + r.Intn(7)
+	var tb []byte
+	var pool []int
+	for i := 0; i < n; i++ {
+		o := "+++-XXXMG"[r.Intn(9)]
+		tb = append(tb, o)
+		occ := 1
+		if o == '+' || o == '-' {
+			occ = []int{0, 1, 2, 2, 2}[r.Intn(5)] // never started, left inside the builder, or completed
+		} else if r.Chance(15) {
+			occ = 0
+		}
+		for k := 0; k < occ; k++ {
+			pool = append(pool, i)
+		}
+	}
+	for i := len(pool) - 1; i > 0; i-- {
+		j := r.Intn(i + 1)
+		pool[i], pool[j] = pool[j], pool[i]
+	}
+	return first, string(tb), pool
 }
